@@ -270,6 +270,15 @@ func runC12Malformed(c Case, res *CaseResult) {
 		{"irvrjnal-unknown-parent", func(a *h.Asm) {
 			a.MstoreName(memJ, []byte("k")).Journal(h.IRVRJNAL, h.U(24), h.U(99), h.U(memJ), jTypStr, jTypArr)
 		}},
+		{"name-pointer-beyond-memory", func(a *h.Asm) { a.Journal(h.RSVJNAL, h.U(0x5000), h.U(20), jTypStr) }},
+		{"name-length-beyond-memory", func(a *h.Asm) {
+			a.PushU(0x1000).PushU(0x40).Op(h.MSTORE) // length word 4096 at the last word of memory
+			a.Journal(h.VSVJNAL, h.U(0x40), h.U(20), h.U(0), jTypU)
+		}},
+		{"key-pointer-straddles-memory-end", func(a *h.Asm) {
+			a.MstoreName(memJ, []byte("m")).Journal(h.RSVJNAL, h.U(memJ), h.U(23), jTypMap)
+			a.Journal(h.IRVVJNAL, h.U(23), h.U(99), h.U(memJ+0x30), h.U(0), jTypU, jTypMap) // memory ends at memJ+0x40
+		}},
 		{"vrjnal-bad-encoding", func(a *h.Asm) {
 			a.MstoreName(memJ, []byte("s")).Journal(h.RSVJNAL, h.U(memJ), h.U(22), jTypStr)
 			a.PushU(0x81).PushU(22).Op(h.SSTORE) // odd (long form) with length 64 < ... 0x81 = 2*64+1 -> valid long; use 0x41: short form flag even with len 32
@@ -338,7 +347,7 @@ func init() {
 		ID:    "C12",
 		Level: "exploration",
 		Rule: "kind pair: a generated call tree (CALL/DELEGATECALL/CALLCODE/STATICCALL frames, static and non-static, reverting and halting frames, forks Frontier..Cancun) whose frames contain register+journal gadgets using all eight journal opcodes with well-formed operands is assembled twice: P with the journal byte followed by n-1 JUMPDEST bytes, P' with n POP bytes; both run on the real VM with full step recording; result, logs, post-state and every aligned step (pc, op, depth, full stack, memory, return-data buffer) must be identical, every journal step must cost the same non-zero constant, and (runs without exceptional halts) leftover(P')-leftover(P) = sum of (fee + (n-1) - 2n); " +
-			"kind malformed: per fork, 9 malformed operand sets x CALL/STATICCALL: the frame must halt with an error, use all its gas, have its effects reverted and the caller must see 0; a cross-case check requires ONE fee value over all forks; distinct_nontrivial = distinct event shapes of pairs with at least one journal step + malformed combinations",
+			"kind malformed: per fork, 12 malformed operand sets (unregistered keys, offset 32, width 33, offset+width>32, huge offset, unknown parents, bad string encoding, name pointer / length / key pointer outside the frame's memory) x CALL/STATICCALL: the frame must halt with an error, use all its gas, have its effects reverted and the caller must see 0; a cross-case check requires ONE fee value over all forks; distinct_nontrivial = distinct event shapes of pairs with at least one journal step + malformed combinations",
 		Assumptions: []string{"programs are gas- and code-insensitive by construction (no GAS/CODECOPY/EXTCODE*, ample explicit call gas, no creates)", "well-formed = registered key, offset<=31, width<=32, offset+width<=32, valid string encoding (C09/C11 models)"},
 		Cases: func(seed uint64, tier string) []Case {
 			n := 400
